@@ -1,0 +1,47 @@
+//go:build verif
+// +build verif
+
+package ledgerstore
+
+import (
+	"github.com/polynetwork/poly/common"
+	"github.com/polynetwork/poly/core/types"
+)
+
+// VerifPadHeaderIndex grows the in-memory header index up to `height` with placeholder entries (heights above the
+// current header height only; nothing is written to disk) so that GetCurrentHeaderHeight() returns `height`.
+// This is the only way to reach the header-verification rule that applies above header height 20,000,000 without
+// building twenty million blocks.  When tip is not nil it becomes the cached header at `height`, so that headers
+// can be offered on top of it.  The padded map is returned; a harness that opens many ledgers may hand it back as
+// `reuse` (entries 0..dirtyLow and height+1..height+dirtyHigh are cleaned first) instead of paying for a new one.
+func (this *LedgerStoreImp) VerifPadHeaderIndex(height uint32, tip *types.Header, reuse map[uint32]common.Uint256, dirtyLow, dirtyHigh uint32) map[uint32]common.Uint256 {
+	this.lock.Lock()
+	defer this.lock.Unlock()
+	pad := common.Uint256{0xfe}
+	cur := uint32(len(this.headerIndex))
+	idx := reuse
+	if idx == nil || uint32(len(idx)) < height+1 {
+		idx = make(map[uint32]common.Uint256, int(height)+1024)
+		for i := uint32(0); i <= height; i++ {
+			idx[i] = pad
+		}
+	} else {
+		for i := uint32(0); i <= dirtyLow; i++ {
+			idx[i] = pad
+		}
+		for i := uint32(1); i <= dirtyHigh; i++ {
+			delete(idx, height+i)
+		}
+	}
+	if height+1 > cur {
+		for k, v := range this.headerIndex {
+			idx[k] = v
+		}
+		this.headerIndex = idx
+	}
+	if tip != nil {
+		this.headerIndex[height] = tip.Hash()
+		this.headerCache[tip.Hash()] = tip
+	}
+	return idx
+}
